@@ -261,10 +261,9 @@ seq_t dtw_distance{{ suffix }}{{ suffix2 }}(seq_t *s1, idx_t l1,
         ec = ec_next;
         // Deal with Psi-relaxation in last column
         if (settings->psi_1e != 0 && minj == l2 && l1 - 1 - i <= settings->psi_1e) {
-            assert(!(settings->window == 0 || settings->window == l2) || (i1 + 1)*length - 1 == curidx);
-            if (dtw[curidx] < psi_shortest) {
-                // curidx is the last value
-                psi_shortest = dtw[curidx];
+            // the value of the last column in the current row
+            if (dtw[i1*length + l2 - skip] < psi_shortest) {
+                psi_shortest = dtw[i1*length + l2 - skip];
             }
         }
         #ifdef DTWDEBUG
